@@ -17,6 +17,7 @@ C16 — open options change performance, not behaviour.
 import Jamm.Gen.Params
 import Jamm.Gen.Steps
 import Jamm.Proofs.CommitCompose
+import Jamm.Proofs.ImplCheckLemmas
 set_option linter.unusedSectionVars false
 
 namespace Jamm.Props.C16
@@ -72,5 +73,12 @@ theorem commit_invariant_any_pagesize (pagesize hdr leafHdr branchHdr bmSize : N
     (steps : List RbStep) (touched : List Bytes) (t : Tree Bytes Ent) (h : TreeInv t) :
     TreeInv (commitTree Gen.params pagesize hdr leafHdr branchHdr bmSize steps touched t) :=
   commitTree_inv Gen.params pagesize hdr leafHdr branchHdr bmSize params_valid (by decide) steps touched t h
+
+/-- strict mode runs the database's own check before the header is written; it accepts every file the
+independent checker accepts (which the run establishes for every commit), so strict mode never turns a valid
+commit into an error -/
+theorem strict_mode_never_rejects_a_checked_file (mt : MetaRec) (pg : PageStore) (fileSize pagesize : Nat)
+    (sum : FileSummary) (h : checkFile mt pg fileSize pagesize = .ok sum) : implCheck mt pg = .ok () :=
+  implCheck_of_checkFile mt pg fileSize pagesize sum h
 
 end Jamm.Props.C16
